@@ -297,9 +297,9 @@ impl UsesLifetimes for syn::TypeParamBound {
         match *self {
             syn::TypeParamBound::Trait(ref v) => v.uses_lifetimes(options, lifetimes),
             syn::TypeParamBound::Lifetime(ref v) => v.uses_lifetimes(options, lifetimes),
-            // non-exhaustive enum
-            // TODO: replace panic with failible function
-            _ => panic!("Unknown syn::TypeParamBound: {:?}", self),
+            // non-exhaustive enum: bounds this crate cannot look into (such as `use<..>`
+            // captures) contribute no usages rather than aborting the derive.
+            _ => Default::default(),
         }
     }
 }
